@@ -548,7 +548,7 @@ Section MixedLazy.
     destruct (make_binding_old_binds _ _ _ _ _ Hm) as (_ & Gold).
     assert (Hlazy : b_evp xb = 0 \/ b_evp xb <> 0 /\ m <> MImmediate).
     { destruct m as [|e0]; [left; exact Hevp|]. right. destruct Hmode as (id & Hid & Hne). rewrite Hid in Hevp. inversion Hevp; subst. split; [exact Hne|discriminate]. }
-    pose proof G as (_ & _ & Gv & _ & Gobs).
+    pose proof G as (_ & _ & Gv & _ & Gobs & _).
     assert (Vp : values w1 p = None) by (rewrite Gv; unfold values; rewrite Hp; reflexivity).
     assert (Hp1 : lookup (w_props w1) p = None) by (unfold values in Vp; destruct (lookup (w_props w1) p); [discriminate Vp|reflexivity]).
     rewrite Hp1 in H.
